@@ -1,9 +1,9 @@
 (** C02. RobustSign = the exact stage on unit-length points. The triage stage is sound
-    unconditionally (Proofs/C02_TriageDet.v); the only hypothesis left is H_STABLE_DET
-    (Proofs/C02_Float.v) for the stableSign stage. *)
+    unconditionally (Proofs/C02_TriageDet.v) and so is the stableSign stage
+    (Proofs/C02_StableDet.v): everything here is CLOSED. *)
 From Coq Require Import ZArith Reals Floats Lra Lia Bool List Psatz.
 From Geo Require Import Base.GoPrim Base.F64 Base.Exact Gen.R3 Gen.S2Pred Model.Pred
-  Proofs.C02_Exact Proofs.C02_Float Proofs.C02_TriageDet.
+  Proofs.C02_Exact Proofs.C02_Float Proofs.C02_TriageDet Proofs.C02_StableDet.
 Local Open Scope R_scope.
 
 (** * RobustSign = the exact stage on unit-length points *)
@@ -36,7 +36,6 @@ Proof.
 Qed.
 
 Section Robust.
-  Hypothesis HS : H_STABLE_DET.
   Variables a b c : s2_Point.
   Hypothesis Ua : unit_pt a.
   Hypothesis Ub : unit_pt b.
@@ -51,7 +50,7 @@ Section Robust.
     - unfold expensive_sign. fold (identical2 a b c).
       destruct (identical2 a b c) eqn:I; [reflexivity|]. cbv zeta.
       destruct (Z.eqb_spec (s2_stableSign a b c) 0) as [E2|E2]; simpl; [reflexivity|].
-      pose proof (stable_sound HS a b c Ua Ub Uc E2) as Hs.
+      pose proof (stable_sound_closed a b c Ua Ub Uc E2) as Hs.
       rewrite Hs. symmetry. apply exact_sign_det. intros D0. rewrite D0, sgnR_0 in Hs. contradiction.
     - pose proof (triage_sound_closed a b c Ua Ub Uc E) as Hs.
       assert (D0 : detR a b c <> 0). { intros D0. rewrite D0, sgnR_0 in Hs. contradiction. }
@@ -91,19 +90,19 @@ Proof.
   destruct (s2_Point_eqb a b), (s2_Point_eqb b c), (s2_Point_eqb c a); reflexivity.
 Qed.
 
-Theorem robust_sign_rotate : H_STABLE_DET -> forall a b c,
+Theorem robust_sign_rotate : forall a b c,
   unit_pt a -> unit_pt b -> unit_pt c -> robust_sign b c a = robust_sign a b c.
 Proof.
-  intros HS a b c Ua Ub Uc. rewrite !robust_sign_spec by assumption.
+  intros a b c Ua Ub Uc. rewrite !robust_sign_spec by assumption.
   rewrite identical2_rot. destruct (identical2 a b c) eqn:I; [reflexivity|].
   destruct Ua as [Fa _], Ub as [Fb _], Uc as [Fc _].
   apply (exact_sign_rotate a b c true); auto. now apply identical2_false_distinct.
 Qed.
 
-Theorem robust_sign_swap : H_STABLE_DET -> forall a b c,
+Theorem robust_sign_swap : forall a b c,
   unit_pt a -> unit_pt b -> unit_pt c -> robust_sign c b a = (- robust_sign a b c)%Z.
 Proof.
-  intros HS a b c Ua Ub Uc. rewrite !robust_sign_spec by assumption.
+  intros a b c Ua Ub Uc. rewrite !robust_sign_spec by assumption.
   destruct Ua as [Fa _], Ub as [Fb _], Uc as [Fc _].
   rewrite identical2_rev by assumption. destruct (identical2 a b c) eqn:I; [reflexivity|].
   apply (exact_sign_swap13 a b c true); auto. now apply identical2_false_distinct.
